@@ -9,6 +9,7 @@ import (
 	"sort"
 	"strings"
 	"sync"
+	"sync/atomic"
 	"testing"
 	"time"
 
@@ -580,6 +581,91 @@ func checkLoadOrder(res *vlib.Result, r *vlib.Rand, ctxID int) {
 	}
 }
 
+// NAT values that are none of the three names but could be taken for
+// "restricted" or "unknown" by a lenient reader.
+var oddNATs = []string{"Restricted", "RESTRICTED", " restricted", "restricted ", "Unknown", "UNKNOWN", "unknown ", "\tunknown", "restricted\n", "symmetric", "un", "Restricted,unrestricted"}
+
+// checkOddNAT: proxy polls whose NAT value is not one of the three names.
+// The broker either refuses such a poll (what the decoder documents), or, if
+// it lets it wait, the proxy has not reported an unrestricted NAT: a client
+// whose NAT is restricted, unknown or absent must not be given it.
+func checkOddNAT(res *vlib.Result, r *vlib.Rand, ctxID int) {
+	b := newVBroker(ctxID, nil, "", "")
+	defer b.stop(res, "C03")
+	n := r.Range(2, 4)
+	type odd struct {
+		spec pollSpec
+		done int32
+		res  pollResult
+	}
+	var ps []*odd
+	var wg sync.WaitGroup
+	for i := 0; i < n; i++ {
+		o := &odd{}
+		o.spec = pollSpec{Sid: fmt.Sprintf("odd%d-p%d", ctxID, i), Type: "standalone", NAT: r.PickString(oddNATs), Clients: r.PickInt([]int{0, 8})}
+		if r.Bool() {
+			e := ""
+			o.spec.Pattern = &e
+		}
+		ps = append(ps, o)
+		wg.Add(1)
+		go func() {
+			defer wg.Done()
+			o.res = b.poll(&o.spec)
+			atomic.StoreInt32(&o.done, 1)
+			if o.res.Offer != "" {
+				b.answer(o.spec.Sid, "ODD-ANSWER-"+o.spec.Sid)
+			}
+		}()
+	}
+	pending := func() int {
+		k := 0
+		for _, o := range ps {
+			if atomic.LoadInt32(&o.done) == 0 {
+				k++
+			}
+		}
+		return k
+	}
+	// every poll has either been refused or is waiting
+	if !waitUntil(5*time.Second, func() bool { return b.debugAvailable() == pending() }) {
+		res.Inconcl(fmt.Sprintf("oddnat ctx %d: polls neither returned nor registered within 5 s", ctxID))
+		wg.Wait()
+		return
+	}
+	res.Eval(1)
+	res.Obs("odd_nat_populations", 1)
+	waiting := pending()
+	if waiting == 0 {
+		res.Obs("odd_nat_polls_refused", int64(n))
+		wg.Wait()
+		for _, o := range ps {
+			if o.res.HTTP == 200 {
+				res.Violatef("c03:odd-nat-poll-answered-200-without-waiting", map[string]interface{}{"case": fmt.Sprintf("oddnat/%d", ctxID), "nat": o.spec.NAT, "result": o.res}, "poll with NAT %q was neither refused nor kept waiting", o.spec.NAT)
+			}
+		}
+		return
+	}
+	res.Obs("odd_nat_polls_kept_waiting", int64(waiting))
+	clientNAT := r.PickString([]string{"", NATUnknown, NATRestricted})
+	c := clientSpec{Transport: "post", NAT: clientNAT, Offer: fmt.Sprintf("ODD-OFFER-%d", ctxID)}
+	cr := b.client(&c)
+	wdone := make(chan struct{})
+	go func() { wg.Wait(); close(wdone) }()
+	select {
+	case <-wdone:
+	case <-time.After(40 * time.Second):
+		res.Inconcl(fmt.Sprintf("oddnat ctx %d: polls did not return in 40 s", ctxID))
+		return
+	}
+	for _, o := range ps {
+		if o.res.Offer == c.Offer {
+			res.Violatef("c03:restricted-client-given-proxy-that-did-not-report-unrestricted", map[string]interface{}{"case": fmt.Sprintf("oddnat/%d", ctxID), "client_nat": clientNAT, "proxy_nat": o.spec.NAT, "client_result": cr},
+				"client NAT %q was matched with a proxy whose poll said NAT %q", clientNAT, o.spec.NAT)
+		}
+	}
+}
+
 func TestVerifC02(t *testing.T) { runC02C03(t, "C02") }
 func TestVerifC03(t *testing.T) { runC02C03(t, "C03") }
 
@@ -683,9 +769,20 @@ func runC02C03(t *testing.T, prop string) {
 				checkLoadOrder(res, root.SplitN("loadorder", i), 100000+i)
 			}(i)
 		}
+		for i := 0; i < vlib.Scale(12, 80); i++ {
+			if i%nshards != shard {
+				continue
+			}
+			lwg.Add(1)
+			go func(i int) {
+				defer lwg.Done()
+				checkOddNAT(res, root.SplitN("oddnat", i), 110000+i)
+			}(i)
+		}
 		lwg.Wait()
 		res.RequireObs("porcupine_ok", int64(len(hs)*6/10))
 		res.RequireObs("loadorder_populations", 10)
+		res.RequireObs("odd_nat_populations", 1)
 		res.RequireObs("loadorder_cases_where_order_matters", 1)
 		res.RequireObs("loadorder_denied_while_other_pool_waits", 1)
 		res.RequireObs("denials_pool_unrestricted", 1)
